@@ -72,6 +72,11 @@ def answer : List String → String
     match parseRatList? xin, parseRatList? yin, parseRatList? xout, parseBool? avg with
     | some xin, some yin, some xout, some avg => showOpt (showList showRat) (resample xin yin xout avg)
     | _, _, _, _ => "bad-op"
+  -- avgmesh <refN> <meshes>: _computeAverageAxialMesh
+  | ["avgmesh", n, meshes] =>
+    match parseNat? n, parseList? parseRatList? meshes with
+    | some n, some meshes => showOpt (showList showRat) (averageAxialMesh n meshes)
+    | _, _ => "bad-op"
   | ["decusp", m, common, fb, ft, cb, ct] =>
     match parseRat? m, parseRatList? common, parseRatList? fb, parseRatList? ft, parseRatList? cb, parseRatList? ct with
     | some m, some common, some fb, some ft, some cb, some ct => showOpt (showList showRat) (decusp m common fb ft cb ct)
